@@ -52,6 +52,12 @@ WHITELIST = [
     ("apply_spans_count", ["arr", "opt_arr"]),
     ("apply_spans_first", ["arr", "arr", "opt_arr"]),
     ("apply_spans_last", ["arr", "arr", "opt_arr"]),
+    ("apply_spans_max", ["arr", "arr", "opt_arr"]),
+    ("apply_spans_min", ["arr", "arr", "opt_arr"]),
+    ("apply_spans_index_of_first", ["arr", "opt_arr"]),
+    ("apply_spans_index_of_last", ["arr", "opt_arr"]),
+    ("apply_spans_index_of_min", ["arr", "arr", "opt_arr"]),
+    ("apply_spans_index_of_max", ["arr", "arr", "opt_arr"]),
 ]
 
 LEAN_T = {"int": "Int", "bool": "Bool", "arr": "List Int", "barr": "List Bool", "opt_arr": "Option (List Int)"}
